@@ -1,5 +1,6 @@
 import DimodModel.Enumerate
 import DimodModel.EnumPost
+import DimodModel.Anneal
 import DimodModel.Wire
 open Wire Enum
 
@@ -21,6 +22,10 @@ open Wire Enum
     trunc <n> <byEnergy> <aggregate> ; rows `v.v@e@occ|…`  → rows (Truncate / PolyTruncate composite)
     struct ; nodes ; edges ; lin ; quad        → 1 | 0 (bqm_structured)
     sa <spin> ; lin ; quad ; off ; spins       → rows with energies (SimulatedAnnealingSampler assembly)
+    sarun <spin> <ns> <b0|-> <b1|-> <np> ; lin ; quad ; off ; h ; J ; reads   → `ok rows` / `err value|zerodiv|key` (the whole
+                                                 SimulatedAnnealingSampler over explicit draws; reads = `init#sweep0#sweep1…|…`, each `l=v,…`)
+    rnd <spin> <num_reads> ; labels ; draws ; lin ; quad ; off → `ok rows` / `err` (RandomSampler over explicit index draws `d.d.d`)
+    hising ; h ; J(poly)                       → polynomial, canonical (`BinaryPolynomial.from_hising`)
     expand ; reds+ ; init                      → `l=v,…` sorted (`expand_initial_state`); reds+ = `u&v&p[&aux&cu&cv&cp],…`
     poly   = `bias@l&l&l|…`   fixed/lin = `l=v,…`   quad = `u&v=b,…`   reds = `u&v&p,…` -/
 
@@ -188,6 +193,31 @@ def answer (line : String) : String :=
           (sepBy "|" (field parts 4)).mapM parseAssign with
     | some lin, some quad, some off, some spins => String.intercalate "|" ((saAssemble ⟨spin = "1", lin, quad, off⟩ spins).map showRow)
     | _, _, _, _ => "bad"
+  | ["sarun", spin, ns, b0, b1, np] =>
+    match parseAssign (field parts 1), parseQuad (field parts 2), parseRat? (field parts 3), parseAssign (field parts 4),
+          parseQuad (field parts 5), (sepBy "|" (field parts 6)).mapM (fun rd => (rd.splitOn "#").mapM parseAssign), ns.toInt? with
+    | some lin, some quad, some off, some h, some J, some reads, some ns =>
+      let br : Option (Rat × Rat) := match parseRat? b0, parseRat? b1 with | some a, some b => some (a, b) | _, _ => none
+      let draws : List Draws := reads.map fun rd =>
+        { init := fun l => dictGet (rd.headD []) l, acc := fun i l => dictGet ((rd.drop 1).getD i []) l }
+      match saSample ⟨spin = "1", lin, quad, off⟩ h J br ns (np = "1") draws with
+      | .ok out => "ok " ++ String.intercalate "|" (out.map showRow)
+      | .error .value => "err value"
+      | .error .zerodiv => "err zerodiv"
+      | .error .key => "err key"
+    | _, _, _, _, _, _, _ => "bad"
+  | ["rnd", spin, nr] =>
+    match parseLabels (field parts 1) ",", (sepBy "." (field parts 2)).mapM parseRat?, parseAssign (field parts 3),
+          parseQuad (field parts 4), parseRat? (field parts 5), nr.toNat? with
+    | some labels, some draws, some lin, some quad, some off, some nr =>
+      match randomSample ⟨spin = "1", lin, quad, off⟩ labels nr (fun i => draws.getD i 0) with
+      | .ok out => "ok " ++ String.intercalate "|" (out.map showRow)
+      | .error _ => "err"
+    | _, _, _, _, _, _ => "bad"
+  | ["hising"] =>
+    match parseAssign (field parts 1), parsePoly (field parts 2) with
+    | some h, some J => showPoly (fromHising h J)
+    | _, _ => "bad"
   | ["pfixed", spin, sk] =>
     match parsePoly (field parts 1), parseAssign (field parts 2) with
     | some p, some fx => showRows (polyFixedSample (sk = "1") (exactPoly (spin = "1")) p fx)
